@@ -309,15 +309,17 @@ def chol2_first_factor_detects(I, storage):
     c, G, h, dims, A, b, P = problem(I, storage)
     n = I["n"]
     try:
-        if storage == "dense" or isinstance(P, matrix):
+        if storage == "dense" or isinstance(G, matrix):
             S = matrix(0.0, (n, n))
             base.syrk(matrix(G), S, trans='T')
-            S += matrix(P)
+            if P is not None:
+                S += matrix(P)
             lapack.potrf(S)
         else:
             S = spmatrix([], [], [], (n, n), 'd')
             base.syrk(G, S, trans='T')
-            S += P
+            if P is not None:
+                S += P
             F = cholmod.symbolic(S)
             cholmod.numeric(S, F)
         return False
